@@ -203,10 +203,27 @@ fn rd_h<T: Shape>(t: &T) -> Option<u32> {
         Some(t.read())
     }
 }
+/// A slice length obtained through a handle is data read from the allocation (thin handles) or
+/// from the fat pointer: refuse to walk a slice whose length is a memory fill pattern or absurd.
+pub fn sane_len(n: usize) {
+    const FREED: usize = usize::from_ne_bytes([0xDD; 8]);
+    const FRESH: usize = usize::from_ne_bytes([0xA5; 8]);
+    if n == FREED {
+        triomphe_verif_rt::violation("read-freed", "the slice length read through a handle is the freed-memory pattern".into());
+    }
+    if n == FRESH {
+        triomphe_verif_rt::violation("read-uninit", "the slice length read through a handle is the never-written-memory pattern".into());
+    }
+    if n > (1 << 24) {
+        triomphe_verif_rt::violation("length-mismatch", format!("the slice length read through a handle is {} (no such slice was ever created)", n));
+    }
+}
 fn rd_elems<E: Shape>(s: &[E]) -> Vec<u32> {
+    sane_len(s.len());
     s.iter().map(|e| if E::ZST { 0 } else { e.read() }).collect()
 }
 fn rd_mu<E: Shape>(s: &[MaybeUninit<E>]) -> Vec<u32> {
+    sane_len(s.len());
     s.iter().map(|m| mu_raw(m)).collect()
 }
 /// Raw identity field of a possibly-uninitialised slot.
@@ -224,6 +241,7 @@ pub fn mu_raw<E: Shape>(m: &MaybeUninit<E>) -> u32 {
     }
 }
 fn range<E>(s: &[E]) -> (usize, usize) {
+    sane_len(s.len());
     let lo = s.as_ptr() as usize;
     (lo, lo + std::mem::size_of_val(s))
 }
@@ -545,6 +563,7 @@ impl<F: Family> Handle<F> {
             Handle::Str(x) => {
                 arc_common(&mut v, x, counts);
                 if deep {
+                    sane_len(x.len());
                     v.s = Some((**x).to_string());
                 }
             }
@@ -553,6 +572,7 @@ impl<F: Family> Handle<F> {
                 v.header_addr = Some(a(&x.header as *const F::H));
                 if deep {
                     v.header = rd_h(&x.header);
+                    sane_len(x.slice.len());
                     v.s = Some(x.slice.to_string());
                 }
             }
